@@ -26,5 +26,13 @@ func main() {
 			gen(g, mspace(g), triTemplates(K(g), kTriL))
 		}},
 		vlib.Group{Name: "cdense", Gen: func(g *vlib.G) { genCDense(g, mspace(g)) }},
+		// The receiver itself as one operand, every window as the other.
+		vlib.Group{Name: "selfop", Gen: func(g *vlib.G) {
+			gen(g, vecSpace(g.Seed, g.Thorough()), vecSelfOpTemplates(4))
+			gen(g, mspace(g), denseSelfOpTemplates(K(g)))
+			gen(g, mspace(g), symSelfOpTemplates())
+			gen(g, mspace(g), triSelfOpTemplates(kTriU))
+			gen(g, mspace(g), triSelfOpTemplates(kTriL))
+		}},
 	)
 }
